@@ -751,6 +751,68 @@ fn second_was(_a: &[checks::uow_util::Appended]) -> &'static str {
     "present in half of the rounds"
 }
 
+// ------------------------------------------------------------------------------------------
+// a flush guard in somebody else's keeping: handed to a slot guard (OnParentDrop::Wait or
+// delay_flush). When that slot guard goes away the flush guard goes with it - also when the slot
+// it belonged to has meanwhile been replaced in the entry, so that nobody listens for its value.
+
+#[metrics]
+#[derive(Default)]
+struct SlotChild {
+    v: u64,
+}
+#[metrics]
+#[derive(Default)]
+struct WorkWithSlot {
+    a: u64,
+    #[metrics(flatten)]
+    s: metrique::Slot<SlotChild>,
+}
+
+fn slot_held_flush_guard_cases(rep: &Report) -> bool {
+    for (case, via_delay, replace_slot, guard_first) in [(0, false, true, false), (1, true, true, false), (2, false, false, false), (3, true, false, false), (4, false, true, true), (5, true, true, true)] {
+        rep.eval();
+        let sink = CountingSink::new();
+        let mut owner = WorkWithSlot { a: 40 + case, ..Default::default() }.append_on_drop(sink.clone());
+        let mut g = if via_delay {
+            let mut g = owner.s.open(metrique::OnParentDrop::Discard).expect("first open");
+            g.delay_flush(owner.flush_guard());
+            g
+        } else {
+            let fg = owner.flush_guard();
+            owner.s.open(metrique::OnParentDrop::Wait(fg)).expect("first open")
+        };
+        g.v = 7;
+        if replace_slot {
+            // the entry gets a fresh slot: the old slot's receiving half is gone, its guard lives on
+            owner.s = metrique::Slot::default();
+        }
+        let mut early = 0;
+        if guard_first {
+            drop(g);
+            early += sink.count();
+            drop(owner);
+        } else {
+            drop(owner);
+            early += sink.count();
+            drop(g);
+        }
+        let apps = sink.take();
+        let a_ok = apps.first().is_some_and(|x| x.u64_field("a") == Some(40 + case));
+        let v = apps.first().and_then(|x| x.u64_field("v"));
+        let v_ok = if replace_slot { v.is_none() } else { v == Some(7) };
+        if early != 0 || apps.len() != 1 || !a_ok || !v_ok {
+            let kind = if early != 0 { "appended-too-early" } else if apps.is_empty() { "never-appended" } else if apps.len() > 1 { "appended-twice" } else { "content-differs" };
+            rep.violation(kind, json!({"what": "the entry's only flush guard was handed to a slot guard; once the owner and that slot guard are both dropped the entry must be at the sink, exactly once - also when the slot had been replaced in the entry meanwhile",
+                "flush_guard_handed_over_by": if via_delay { "delay_flush" } else { "open(OnParentDrop::Wait(..))" }, "slot_replaced_before_the_drops": replace_slot, "slot_guard_dropped_first": guard_first,
+                "appended_before_the_last_of_the_two_drops": early, "appended_at_the_end": apps.len(), "slot_value_in_entry": v}));
+            return false;
+        }
+        rep.count("slot_held_flush_guard_cases", 1);
+    }
+    true
+}
+
 fn main() {
     let args = Args::parse();
     let rep = Report::new("C06", &args);
@@ -827,7 +889,7 @@ fn main() {
             });
         }
     });
-    let ok = all_ok.load(std::sync::atomic::Ordering::SeqCst);
+    let ok = all_ok.load(std::sync::atomic::Ordering::SeqCst) && slot_held_flush_guard_cases(&rep);
     rep.set("sequential_histories_enumerated", total.load(std::sync::atomic::Ordering::SeqCst));
     rep.set("sequential_max_objects", max_objects as u64);
     if ok {
